@@ -2,6 +2,8 @@ open Model
 open Util
 open G_val
 (* X group (exporter) and F group (file reader) — see harness/cpp/drv_exp.inc *)
+(* blocks by name (B group, g_blk.ml); here because 'X wbx' writes one through the exporter *)
+let g_blk : (string, blk) Hashtbl.t = Hashtbl.create 16
 let g_x : exporter option ref = ref None
 let g_outputs : n list list ref = ref []      (* closed outputs, in closing order *)
 (* the history since 'X new', for 'X thm': the hypotheses and the right-hand sides of the end-to-end theorems, evaluated *)
@@ -27,6 +29,10 @@ let cmd_exp (t : string list) =
     push (match o with "qr" -> XQr (fields rv, sv) | "aec" -> XAec (fields rv, sv) | _ -> XMm (fields rv, sv));
     g_x := Some x'; out ("r " ^ dec_of_n r)
   | ["wb"] -> let (x', r) = write_block x in push XWb; g_x := Some x'; out ("r " ^ dec_of_n r)
+  | ["wbx"; n] ->
+    (match Hashtbl.find_opt g_blk n with
+     | None -> out "? no such block"
+     | Some b -> let (x', r) = write_block_ext x b in g_x := Some x'; out ("r " ^ dec_of_n r))
   | ["rot"; e] ->
     let (x', r) = rotate (e <> "0") x in
     push (XRot (e <> "0"));
